@@ -1,7 +1,7 @@
 (* C06 - Configured weights are honoured exactly.  Only statements here; proofs by `exact`. *)
 From Coq Require Import List ZArith String Permutation.
 From Coq Require Import QArith Qabs.
-From MV Require Import Gen.SrcTokens Model.WCluster Model.Edf Model.EdfHeap Proofs.WCluster Proofs.Edf Proofs.EdfHeap Proofs.EdfQ.
+From MV Require Import Gen.SrcTokens Model.WCluster Model.Edf Model.EdfHeap Model.EdfVar Proofs.WCluster Proofs.Edf Proofs.EdfHeap Proofs.EdfQ Proofs.EdfVar.
 Import ListNotations.
 Open Scope Z_scope.
 
@@ -127,3 +127,61 @@ Example c06_duplicate_names_example :
   dedup_last [("a"%string, 10); ("b"%string, 20); ("a"%string, 30)] = [("b"%string, 20); ("a"%string, 30)] /\
   total (dedup_last [("a"%string, 10); ("b"%string, 20); ("a"%string, 30)]) = 50.
 Proof. split; reflexivity. Qed.
+
+(* READ FROM edf.go on this run: NextAndPush re-queues the popped entry with 1.0/weightFunc(entry.item), the
+   weight the weight function answers at that pick, and Add queues with currentTime + 1.0/weight - the shape
+   `edf_pickw` / `edf_add` model. *)
+Theorem c06_edf_source_shape : edf_requeue_asks_weightfunc = true.
+Proof. exact (eq_refl true). Qed.
+
+(* Weights may CHANGE while the scheduler runs (NextAndPush asks the weight function at every pick; `edf_pickw`
+   re-queues with the period answered at that pick).  For every history `pre` of Adds and picks with arbitrarily
+   changing positive weights, once the weight function stands still (W) and both hosts have been re-queued under
+   it (picked at least once in `warm`), every later window satisfies the bound of the property with the CURRENT
+   weights.  D is a common multiple of the weights in force (period = D / weight). *)
+Theorem c06_edf_window_after_weight_changes : forall D W pre s0 warm sm picks s1,
+  0 < D -> (forall i, 0 < W i /\ (W i | D)) ->
+  Forall wop_ok pre -> edf_execw edf_init pre = Some s0 ->
+  edf_runw s0 (fun i => D / W i) warm = Some sm -> edf_runw sm (fun i => D / W i) picks = Some s1 ->
+  forall i j, (i < List.length (es s0))%nat -> (j < List.length (es s0))%nat ->
+  0 < count_pick i warm -> 0 < count_pick j warm ->
+  Z.abs (count_pick i picks * W j - count_pick j picks * W i) <= W i + W j.
+Proof. exact edf_window_settled_weights. Qed.
+Print Assumptions c06_edf_window_after_weight_changes.
+
+(* while a weight is in transit (an entry still queued with the period of its previous weight) the lag is bounded
+   by the larger of the old and the new period of each of the two hosts; scaled form, from any invariant state *)
+Theorem c06_edf_window_during_weight_change : forall s0 P picks s1,
+  (forall i, 0 < P i) -> EInv s0 -> edf_runw s0 P picks = Some s1 ->
+  forall i j, (i < List.length (es s0))%nat -> (j < List.length (es s0))%nat ->
+  Z.abs (count_pick i picks * P i - count_pick j picks * P j)
+    <= Z.max (per_at s0 i) (P i) + Z.max (per_at s0 j) (P j).
+Proof. exact edf_window_transient. Qed.
+Print Assumptions c06_edf_window_during_weight_change.
+
+(* with an unchanged weight function a segment is exactly a run of the fixed-weight model *)
+Theorem c06_edf_constant_weights_is_fixed_model : forall P picks s,
+  (forall i, (i < List.length (es s))%nat -> P i = per_at s i) -> edf_runw s P picks = edf_run s picks.
+Proof. exact runw_settled. Qed.
+Print Assumptions c06_edf_constant_weights_is_fixed_model.
+
+(* the other handling - a period cached in the entry and refreshed only when the weight differs from the one
+   remembered at Add - is refuted: weights 4,2,1, the first goes 4 -> 1 -> 4, every entry re-queued, and a later
+   window of 28 picks violates the bound *)
+Theorem c06_edf_stale_period_refuted :
+  (forall k, In k stale_window -> (k < 3)%nat) /\
+  ~ (Z.abs (count_pick 0 stale_window * stale_wA 1 - count_pick 1 stale_window * stale_wA 0)
+       <= stale_wA 0 + stale_wA 1).
+Proof. exact stale_period_refuted. Qed.
+Print Assumptions c06_edf_stale_period_refuted.
+
+Example c06_weight_change_example :
+  let WA := fun i : nat => match i with 0%nat => 4 | 1%nat => 2 | _ => 1 end in
+  exists s0 sm s1,
+    edf_execw edf_init [WAdd 1; WAdd 2; WAdd 4; WPick 0%nat 1; WPick 1%nat 2; WPick 0%nat 1;
+                        (* weight of host 0: 4 -> 1 *) WPick 0%nat 4; WPick 2%nat 4; WPick 1%nat 2] = Some s0 /\
+    (* restored to 4 *)
+    edf_runw s0 (fun i => 4 / WA i) [1%nat; 0%nat; 2%nat; 1%nat] = Some sm /\
+    edf_runw sm (fun i => 4 / WA i) [0%nat; 0%nat; 1%nat; 0%nat; 0%nat] = Some s1 /\
+    List.length (es s0) = 3%nat.
+Proof. cbn zeta. eexists; eexists; eexists; split; [vm_compute; reflexivity|split; [vm_compute; reflexivity|split; vm_compute; reflexivity]]. Qed.
